@@ -8,7 +8,7 @@ import json
 import os
 import re
 
-from .rustlex import scan, lex, ExtractError, Tok
+from .rustlex import scan, lex, ExtractError, Tok, match_close
 from . import vspec
 
 MOD_PRELUDE = "use vstd::prelude::*;\n#[allow(unused_imports)]\nuse crate::vghost::*;\n"
@@ -99,7 +99,6 @@ def eliminate_guard_returns(text):
     sigi = [k for k, t in enumerate(toks) if t.kind not in ('ws', 'lcomment', 'bcomment')]
     if not sigi or toks[sigi[0]].text != '{':
         return text
-    from .rustlex import match_close
     # walk the statements of the top-level block
     depth = 0
     x = 1
@@ -354,6 +353,7 @@ class GenInfo:
         self.needs_pred_hints = []
         self.opaque_consts = []
         self.field_renames = {}
+        self.manual_structural = []
         self.lost = []             # (contract key, props) whose function no longer exists
         self.lost_ghosts = []
 
@@ -362,6 +362,15 @@ def render_file(path, module, moddir, ctx):
     src = open(path, encoding='utf-8').read()
     sc, toks = scan(src, module)
     info, fncontracts, ghosts = ctx['info'], ctx['fncontracts'], ctx['ghosts']
+    fo = ctx.get('follow')
+    if fo is not None:
+        # functions that were merely renamed / moved keep the key (and denotation name) they had at the pinned commit
+        for f in sc.fns:
+            ck = fo.canon.get(f.key)
+            if ck:
+                f.real_name = f.name
+                f.canon_key = ck
+                f.name = ck.rsplit('::', 1)[-1]
     info.files.append({'path': path, 'sha256': sha(src), 'module': module})
     info.pub_fields += scan_pub_fields(src)
     info.unsafe += sc.unsafe_count
@@ -400,6 +409,34 @@ def render_file(path, module, moddir, ctx):
         if inside_drop:
             continue
         if 'PartialEq' in d.traits and 'Structural' not in d.traits:
+            # the type this derive sits on, and the type names its fields mention
+            mt = re.match(r'(?:\s|///[^\n]*\n|//[^\n]*\n|#\[[^\]]*\])*(?:pub(?:\([^)]*\))?\s+)?(?:enum|struct)\s+(\w+)', src[d.end:])
+            if mt:
+                ctx.setdefault('peq_types', set()).add(mt.group(1))
+            if module and mt:
+                # in a nested module Verus 0.2026.09.13 dies on `derive(Structural)` (internal error: thir_body query for
+                # the derive's anonymous const), so the marker is implemented by hand next to the type (still assumption
+                # A4). The derive's own check - every field type is structural too - is done by the generator at the end:
+                # field types must be primitives or crate types that derive PartialEq themselves.
+                tname = mt.group(1)
+                k0 = d.end + mt.end()
+                rest = src[k0:]
+                body = ''
+                mb = re.match(r'\s*(?:<[^{;]*>)?\s*(?:where[^{;]*)?([{(;])', rest)
+                if mb and mb.group(1) != ';':
+                    close = match_close(toks, next(ix for ix, t in enumerate(toks) if t.pos == k0 + mb.start(1)))
+                    body = src[k0 + mb.start(1):toks[close].pos + 1]
+                variants_or_fields = re.sub(r'//[^\n]*', '', body)
+                idents = set(re.findall(r':\s*&?\s*(?:\w+\s*::\s*)*(\w+)', variants_or_fields))
+                for inner in re.findall(r'\(([^()]*)\)', variants_or_fields[1:] if variants_or_fields.startswith('{') else variants_or_fields):
+                    for part in inner.split(','):
+                        mm = re.match(r'\s*(?:pub(?:\([^)]*\))?\s+)?&?\s*(?:\w+\s*::\s*)*(\w+)', part)
+                        if mm:
+                            idents.add(mm.group(1))
+                ctx.setdefault('manual_structural_fields', {})[tname] = sorted(idents)
+                ctx.setdefault('manual_structural', []).append('crate::%s::%s' % (module, tname))
+                edits.append(Edit(d.start, d.start, '#[verifier::external]\nunsafe impl verus_builtin::Structural for %s {}\n' % tname))
+                continue
             edits.append(Edit(d.inner_end, d.inner_end, ', Structural'))
 
     for m in sc.moddecls:
@@ -420,7 +457,7 @@ def render_file(path, module, moddir, ctx):
         for gi, g in enumerate(ghosts):
             if g.kind in ('impl', 'trait') and ((g.kind == 'trait' and b.kind == 'trait' and b.header == 'trait ' + g.target)
                                                  or (g.kind == 'impl' and b.kind == 'impl' and b.header == g.target)):
-                edits.append(Edit(b.brace_open + 1, b.brace_open + 1, '\n/*@GHOST:%s@*/\n%s\n/*@ENDGHOST@*/' % (g.src, g.text), prio=-1))
+                edits.append(Edit(b.brace_open + 1, b.brace_open + 1, '\n/*@GHOST:%s@*/\n%s\n/*@ENDGHOST@*/' % (g.src, generic_subst(g.text, b, fo)), prio=-1))
                 info.used_ghosts.add(gi)
         if b.kind == 'impl' and b.header.startswith('KeyboardLayout for '):
             info.layouts.append(b.header[len('KeyboardLayout for '):])
@@ -459,10 +496,11 @@ def render_file(path, module, moddir, ctx):
             ret = c.ret
             props = list(c.props)
             attrs += c.attrs
-            prologue = subst_params(c.prologue, names, c.src) if c.prologue else ''
+            blk = next((b for b in sc.blocks if b.kind == 'impl' and b.brace_open < f.start < b.brace_close), None)
+            prologue = generic_subst(subst_params(c.prologue, names, c.src), blk, fo) if c.prologue else ''
             for cl in c.clauses:
                 oid = cl.oid(key)
-                text = subst_params(cl.text, names, cl.src)
+                text = generic_subst(subst_params(cl.text, names, cl.src), blk, fo)
                 clauses.append((cl.kind, oid, text))
                 info.obligations[oid] = {'kind': 'clause', 'clause': cl.kind, 'props': [p.split('@')[0] for p in cl.props], 'fn': key, 'text': text, 'src': cl.src,
                                          'restricted': {p.split('@')[0]: p.split('@')[1] for p in cl.props if '@' in p}}
@@ -647,7 +685,7 @@ def render_file(path, module, moddir, ctx):
                     called.add((qual + '::' if qual else '') + bt[bi].text)
         owner_ty = f.owner.split(' for ')[-1]
         info.functions.append({'key': key, 'file': rel, 'has_body': f.has_body, 'has_contract': bool(c), 'props': props,
-                               'calls': sorted(called), 'is_pub': src[f.sig_start:f.sig_start + 3] == 'pub' or ' for ' in f.owner,
+                               'real_name': f.real_name or f.name, 'calls': sorted(called), 'is_pub': src[f.sig_start:f.sig_start + 3] == 'pub' or ' for ' in f.owner,
                                'mut_self': bool(re.search(r'&\s*(\'\w+\s+)?mut\s+self', ptxt)),
                                'returns_self': bool(re.search(r'\bSelf\b', rtxt)) or (owner_ty != '' and bool(re.search(r'\b%s\b' % re.escape(owner_ty), rtxt))),
                                'body_sha256': sha(body) if body else None, 'body': body, 'prologue': bool(prologue),
@@ -659,7 +697,7 @@ def render_file(path, module, moddir, ctx):
         if not m:
             raise ExtractError('enum KeyCode not found')
         ktoks = lex(src[m.end() - 1:])
-        from .rustlex import match_close, sig as _sig
+        from .rustlex import sig as _sig
         kend = match_close(ktoks, 0)
         names_ = []
         depth = 0
@@ -684,9 +722,12 @@ CELL = re.compile(r'//\s*CELL\s+(.+?)\s*$')
 
 def generate(repo, contracts_dir, lemma_texts=(), out_path=None, opaque=(), probe=False, external=(), table_hints=None, layout_hints=None, behavioural=(), pred_hints=None):
     info = GenInfo()
-    info.field_renames = field_renames(repo)
-    fncontracts, ghosts = vspec.load_dir(contracts_dir, info.field_renames)
-    ctx = {'info': info, 'fncontracts': fncontracts, 'ghosts': ghosts, 'repo': repo, 'opaque': set(opaque), 'probe': probe, 'helpers': set(), 'external': set(external), 'table_hints': table_hints, 'layout_hints': layout_hints, 'pred_hints': pred_hints, 'behavioural': set(behavioural), 'keycodes_for_synth': [], 'private_types': set()}
+    from . import follow
+    fo = follow.compute(repo)
+    info.follow = fo
+    info.field_renames = fo.fields
+    fncontracts, ghosts = vspec.load_dir(contracts_dir, fo.rewrite_spec_text)
+    ctx = {'info': info, 'fncontracts': fncontracts, 'ghosts': ghosts, 'repo': repo, 'opaque': set(opaque), 'probe': probe, 'helpers': set(), 'external': set(external), 'table_hints': table_hints, 'layout_hints': layout_hints, 'pred_hints': pred_hints, 'behavioural': set(behavioural), 'keycodes_for_synth': [], 'private_types': set(), 'follow': fo}
     srcdir = os.path.join(repo, 'src')
     try:
         libsrc = open(os.path.join(srcdir, 'lib.rs'), encoding='utf-8').read()
@@ -700,6 +741,12 @@ def generate(repo, contracts_dir, lemma_texts=(), out_path=None, opaque=(), prob
     info.lost = [(k, fncontracts[k].props) for k in fncontracts if k not in info.used_contracts]
     info.private_contracts = set(k for k in fncontracts if fncontracts[k].private)
     info.lost_ghosts = [g.src + ' (' + g.kind + ' ' + g.target + ')' for i, g in enumerate(ghosts) if i not in info.used_ghosts]
+    info.manual_structural = list(ctx.get('manual_structural', []))
+    PRIMS = {'u8', 'u16', 'u32', 'u64', 'u128', 'usize', 'i8', 'i16', 'i32', 'i64', 'i128', 'isize', 'bool', 'char'}
+    for tname, idents in ctx.get('manual_structural_fields', {}).items():
+        bad = [x for x in idents if x not in PRIMS and x not in ctx.get('peq_types', set())]
+        if bad:
+            raise ExtractError('type %s (nested module) derives PartialEq over field types %s that are not known to be structural (assumption A4)' % (tname, bad))
     text = HEADER + body + '\n' + '\n'.join(lemma_texts) + FOOTER
     info.text = text
     finalize(info)
@@ -799,6 +846,28 @@ def audit(info):
 INVARIANT_TYPES = ('Ps2Decoder', 'ScancodeSet1', 'ScancodeSet2', 'EventDecoder', 'Keyboard')
 
 
+def generic_subst(text, block, fo):
+    """contract text names the type parameters as the struct declaration at the pinned commit did (`L`, `S`); an impl block
+    that names them differently gets the text with its own names (positional)"""
+    if block is None or fo is None or not text:
+        return text
+    hdr = block.raw_header
+    # the self type: after ` for ` if this is a trait impl
+    m = re.search(r'\bfor\s+(.*)$', hdr, re.S)
+    ty = m.group(1) if m else re.sub(r'^\s*impl\s*(<[^{]*?>\s*)?(?=\w)', '', hdr, count=1, flags=re.S)
+    m = re.match(r'\s*&?\s*(?:\w+\s*::\s*)*(\w+)\s*<([^<>]*)>', ty)
+    if not m:
+        return text
+    base = fo.generics.get(m.group(1))
+    args = [a.strip() for a in m.group(2).split(',') if a.strip()]
+    if not base or len(base) != len(args) or not all(re.match(r'^\w+$', a) for a in args):
+        return text
+    ren = {o: n for o, n in zip(base, args) if o != n}
+    if not ren:
+        return text
+    return re.sub(r'\b(%s)\b' % '|'.join(re.escape(o) for o in ren), lambda mm: ren[mm.group(1)], text)
+
+
 def struct_fields(src):
     """{struct name: {field name: type text}} for the braced structs declared in `src`"""
     toks = lex(src)
@@ -886,7 +955,6 @@ def field_renames(repo):
 
 def scan_pub_fields(src):
     """names of invariant-carrying structs that declare a `pub` field"""
-    from .rustlex import match_close
     toks = lex(src)
     S = [t for t in toks if t.kind not in ('ws', 'lcomment', 'bcomment')]
     out = []
